@@ -75,6 +75,10 @@ func cfgS2(prop string, seed uint64, tier string) *RunCfg {
 	for w := 0; w < nw; w++ {
 		for i := 0; i < per; i++ {
 			kind := []string{"incr", "incr", "uniq", "gen", "gen", "refs", "select", "select", "bulk", "fail"}[r.Intn(10)]
+			if prop == "C03" || prop == "C15" {
+				// mostly generated transactions (full where clauses / named uuids), evaluated while others are in flight
+				kind = []string{"gen", "gen", "gen", "gen", "incr", "uniq", "select", "bulk"}[r.Intn(8)]
+			}
 			c.Txns = append(c.Txns, TxnSpec{Actor: fmt.Sprintf("w%d", w), GenSeed: r.Uint64(), Profile: "valid-sw", Kind: kind, Arg: r.Intn(3)})
 		}
 	}
@@ -245,10 +249,21 @@ func (s *s2) issue(w int) {
 		if ct.kind == "refs" {
 			prof = ProfileByName("refs")
 		}
+		switch e.Property {
+		case "C03":
+			prof = ProfileByName([]string{"valid", "mixed", "samerow"}[r.Intn(3)])
+			prof.FailPermil, prof.BadCommit = 0, 0
+		case "C15":
+			prof = ProfileByName("named")
+			prof.DupName, prof.BadCommit = 0, 0
+		}
 		prof.ExplicitID = 1000
 		prof.MaxOps = 3
 		g := NewGen(e.Sch, ct.spec.GenSeed, st, prof, fmt.Sprintf("t%d", ct.idx))
-		g.UUIDWhereOnly = true
+		// the state may have moved on when the transaction is evaluated: C17's serial
+		// re-execution wants operations that stay meaningful, the model-based
+		// properties evaluate whatever was sent against the state at commit time
+		g.UUIDWhereOnly = e.Property != "C03" && e.Property != "C15"
 		g.Exclude = func(table, u string) bool {
 			if table != "Root" {
 				return false
@@ -607,6 +622,28 @@ func (s *s2) checkOther(commits []*CommitRec, byMarker map[string]*concTxn) {
 		return false
 	}
 	switch e.Property {
+	case "C03", "C15":
+		h := &s1{e: e, cfg: s.cfg, srv: s.srv, db: s.db}
+		for k, c := range commits {
+			ct := byMarker[markerOf(c.Before, c.After)]
+			if ct == nil || ct.failed || ct.call == nil || len(ct.res) == 0 {
+				continue // not attributable: C17's concern
+			}
+			if len(integrityProblems(sch, c.Before)) > 0 || len(dupIndexTuples(sch, c.Before)) > 0 {
+				e.Abort("database state already inconsistent (known finding earlier in this run)")
+				return
+			}
+			out := &TxnOutcome{Ops: ct.ops, Call: ct.call, Res: ct.res, Before: c.Before, After: c.After, OpFailAt: -1, Commits: 1}
+			e.Probes["concurrent_commit_vs_model"]++
+			if e.Property == "C03" {
+				h.checkC03(1000+k, out)
+			} else {
+				h.checkC15(1000+k, out)
+			}
+			if e.Stopped() {
+				return
+			}
+		}
 	case "C06":
 		for k, c := range commits {
 			if len(dupIndexTuples(sch, c.Before)) > 0 {
